@@ -10,7 +10,8 @@
    refused) and [EvTick] (the loop runs ONE ready callback).  [w_ready w = []] = the loop is idle. *)
 From Coq Require Import List ZArith.
 Import ListNotations.
-From TV Require Import Lib.Obs C37.Model C37.Run C37.ProofsBase C37.ProofsMain C37.ProofsCheck C37.ProofsNoSpur2.
+From TV Require Import Lib.Obs C37.Model C37.Run C37.ProofsBase C37.ProofsMain C37.ProofsCheck C37.ProofsNoSpur2
+  C37.ProofsLive C37.ProofsLive2 C37.ProofsLive3 C37.ProofsCtx.
 
 (* MAIN: for every program, every set of futures already done at the call and every schedule
    (completion order, outcomes incl. cancellation, interleaving with single loop callbacks), once
@@ -78,6 +79,69 @@ Theorem C37_model_satisfies_checker :
     check_case (p, pre, s, fuel) (run_case (p, pre, s, fuel)) = true.
 Proof. exact model_satisfies_checker_full. Qed.
 Print Assumptions C37_model_satisfies_checker.
+
+(* LIVENESS (no livelock): after ANY schedule, finitely many further loop callbacks leave both loops
+   idle -- so the idle-loop hypotheses above can always be met by letting the loops run. *)
+Theorem C37_no_livelock :
+  forall p pre s, exists n, forall m, n <= m ->
+    w_ready (run (start_dec p (mkenv pre [])) (s ++ repeat EvTick m)) = [] /\
+    w_ready (run (start_nat p (mkenv pre [])) (s ++ repeat EvTick m)) = [].
+Proof. exact no_livelock. Qed.
+Print Assumptions C37_no_livelock.
+
+(* ... with an explicit computable bound: the potential [Phi] (ready + latent callbacks + 3 * suspension
+   points left on the path taken under the completed futures) of the two worlds the schedule reached. *)
+Theorem C37_no_livelock_bound :
+  forall p pre s,
+    let wd := run (start_dec p (mkenv pre [])) s in
+    let wn := run (start_nat p (mkenv pre [])) s in
+    forall m, Phi wd + Phi wn <= m ->
+      w_ready (run wd (repeat EvTick m)) = [] /\ w_ready (run wn (repeat EvTick m)) = [].
+Proof. exact no_livelock_bound. Qed.
+Print Assumptions C37_no_livelock_bound.
+
+(* MAIN, unconditional form: for every program and every schedule, once the loops have been given
+   enough callbacks both are idle and the two forms agree on future state and own trace. *)
+Theorem C37_decorated_equals_native_eventually :
+  forall p pre s, exists n, forall m, n <= m ->
+    let wd := run (start_dec p (mkenv pre [])) (s ++ repeat EvTick m) in
+    let wn := run (start_nat p (mkenv pre [])) (s ++ repeat EvTick m) in
+    w_ready wd = [] /\ w_ready wn = [] /\ status_of wd = status_of wn /\ w_trace wd = w_trace wn.
+Proof. exact forms_equivalent_eventually. Qed.
+Print Assumptions C37_decorated_equals_native_eventually.
+
+(* check_case accepts the model's own observable on every case whose tick budget is large enough
+   (no hypothesis left: such a budget exists for every program and schedule) *)
+Theorem C37_model_satisfies_checker_eventually :
+  forall p pre s, exists n, forall fuel, n <= fuel ->
+    check_case (p, pre, s, fuel) (run_case (p, pre, s, fuel)) = true.
+Proof. exact model_satisfies_checker_eventually. Qed.
+Print Assumptions C37_model_satisfies_checker_eventually.
+
+(* Cancellation / failure inside try/except/finally (the glue seeded change C37_2 breaks): at ANY
+   position [c] of ANY program (inside try bodies, handlers, finally blocks, nested coroutines, after
+   other statements), awaiting a future that failed with e -- or was cancelled, e = CancelledError --
+   makes the decorated coroutine behave exactly as if `raise e` stood at that yield. *)
+Theorem C37_failed_or_cancelled_await_is_raise :
+  forall (c : pctx) i e pre s,
+    child_out (final_env pre s) i = Some (OExc e) ->
+    let w1 := run (start_dec (plug c (SYield (YFut i))) (mkenv pre [])) s in
+    let w2 := run (start_dec (plug c (SRaise e)) (mkenv pre [])) s in
+    w_ready w1 = [] -> w_ready w2 = [] ->
+    status_of w1 = status_of w2 /\ w_trace w1 = w_trace w2.
+Proof. exact failed_await_is_raise. Qed.
+Print Assumptions C37_failed_or_cancelled_await_is_raise.
+
+(* The wrapper's first-iteration fast path: a body that never yields gives an already settled future
+   at the call; no Runner exists, nothing is queued or registered; the result is the reference one. *)
+Theorem C37_fast_path :
+  forall p pre,
+    noyield p = true ->
+    let w := start_dec p (mkenv pre []) in
+    w_ready w = [] /\ w_rst w = RNone /\ w_fcbs w = [] /\
+    exists o, status_of w = StSet o /\ ref (mkenv pre []) (body p) [] = (w_trace w, RFin o).
+Proof. exact fast_path. Qed.
+Print Assumptions C37_fast_path.
 
 (* ---- witnesses of the two defects fixed in /repo (b6a1816, ace54d0), on the model of the fixed code ---- *)
 Definition witness_cancel : stmt :=
